@@ -235,6 +235,9 @@ enum PqFin {
     Finish,
     IntoInner,
     TraitClose,
+    FinishRetry,
+    FinishThenClose,
+    FinishThenIntoInner,
 }
 
 fn pq_run(d: &Data, s: FaultSink, a: &Api, group_rows: usize, flush_sync: bool, fin: PqFin) {
@@ -267,6 +270,19 @@ fn pq_run(d: &Data, s: FaultSink, a: &Api, group_rows: usize, flush_sync: bool, 
         PqFin::IntoInner => {
             a.call("into_inner", || w.into_inner().map(|_| ()));
         }
+        PqFin::FinishRetry => {
+            a.retry("finish", 3, || w.finish().map(|_| ()).map_err(|e| e.to_string()));
+        }
+        PqFin::FinishThenClose => {
+            if a.call("finish", || w.finish().map(|_| ())).is_none() && !a.panicked() {
+                a.call("close", || w.close().map(|_| ()));
+            }
+        }
+        PqFin::FinishThenIntoInner => {
+            if a.call("finish", || w.finish().map(|_| ())).is_none() && !a.panicked() {
+                a.call("into_inner", || w.into_inner().map(|_| ()));
+            }
+        }
     }
 }
 
@@ -280,6 +296,12 @@ fn pq_cases(d: &Data, wide: &Data, out: &mut Vec<WCase>) {
         let dd = d.clone();
         out.push(case("parquet", variant, Box::new(move |s, a| pq_run(&dd, s, a, group, fs, fin))));
     }
+    for (variant, fin) in [("finish-retry", PqFin::FinishRetry), ("finish-retry-close", PqFin::FinishThenClose), ("finish-retry-into_inner", PqFin::FinishThenIntoInner)] {
+        let dd = d.clone();
+        out.push(case("parquet", variant, Box::new(move |s, a| pq_run(&dd, s, a, 4, false, fin))));
+    }
+    let dd = wide.clone();
+    out.push(case("parquet", "wide/finish-retry", Box::new(move |s, a| pq_run(&dd, s, a, 1500, false, PqFin::FinishRetry))));
     let dd = wide.clone();
     out.push(case("parquet", "wide/close", Box::new(move |s, a| pq_run(&dd, s, a, 1500, false, PqFin::Close))));
     let dd = wide.clone();
@@ -287,6 +309,11 @@ fn pq_cases(d: &Data, wide: &Data, out: &mut Vec<WCase>) {
 }
 
 fn pq_async_run(d: &Data, s: FaultSink, a: &Api, group_rows: usize, flush_each: bool, close: bool) {
+    pq_async_fin(d, s, a, group_rows, flush_each, if close { 0 } else { 1 })
+}
+
+/// fin: 0 close, 1 finish, 2 finish retried twice, 3 finish then close
+fn pq_async_fin(d: &Data, s: FaultSink, a: &Api, group_rows: usize, flush_each: bool, fin: u8) {
     use futures::executor::block_on;
     use parquet::arrow::AsyncArrowWriter;
     use parquet::file::properties::WriterProperties;
@@ -304,14 +331,31 @@ fn pq_async_run(d: &Data, s: FaultSink, a: &Api, group_rows: usize, flush_each: 
     if a.panicked() {
         return;
     }
-    if close {
-        a.call("close", || block_on(w.close()).map(|_| ()));
-    } else {
-        a.call("finish", || block_on(w.finish()).map(|_| ()));
+    match fin {
+        0 => {
+            a.call("close", || block_on(w.close()).map(|_| ()));
+        }
+        1 => {
+            a.call("finish", || block_on(w.finish()).map(|_| ()));
+        }
+        2 => {
+            a.retry("finish", 3, || block_on(w.finish()).map(|_| ()).map_err(|e| e.to_string()));
+        }
+        _ => {
+            if a.call("finish", || block_on(w.finish()).map(|_| ())).is_none() && !a.panicked() {
+                a.call("close", || block_on(w.close()).map(|_| ()));
+            }
+        }
     }
 }
 
 fn pq_async_cases(d: &Data, wide: &Data, out: &mut Vec<WCase>) {
+    for (variant, fin) in [("finish-retry", 2u8), ("finish-retry-close", 3)] {
+        let dd = d.clone();
+        out.push(WCase { whole_writes: true, ..case("pq_async", variant, Box::new(move |s, a| pq_async_fin(&dd, s, a, 4, false, fin))) });
+    }
+    let dd = wide.clone();
+    out.push(WCase { whole_writes: true, ..case("pq_async", "wide/finish-retry", Box::new(move |s, a| pq_async_fin(&dd, s, a, 1500, false, 2))) });
     let dd = wide.clone();
     out.push(WCase { whole_writes: true, ..case("pq_async", "wide/close", Box::new(move |s, a| pq_async_run(&dd, s, a, 1500, false, true))) });
     for (variant, group, flush_each, close) in [("groups4/close", 4usize, false, true), ("flush_each/finish", 1024, true, false), ("close", 1024, false, true)] {
@@ -340,7 +384,9 @@ fn csv_cases(d: &Data, out: &mut Vec<WCase>) {
                 }
                 match variant {
                     "into_inner" => {
-                        a.call("into_inner", || fine(w.into_inner()).map(|_| ()));
+                        a.take("into_inner", || {
+                            w.into_inner();
+                        });
                     }
                     "close" => {
                         a.call("close", || RecordBatchWriter::close(w));
@@ -374,10 +420,23 @@ macro_rules! json_script {
             Fin::Finish => {
                 a.call("finish", || w.finish());
             }
+            Fin::FinishRetry => {
+                a.retry("finish", 3, || w.finish().map_err(|e| e.to_string()));
+                if !a.panicked() {
+                    if let Some(inner) = a.take("into_inner", || w.into_inner()) {
+                        $after(a, inner);
+                    }
+                }
+            }
+            Fin::FinishThenClose => {
+                if a.call("finish", || w.finish()).is_none() && !a.panicked() {
+                    a.call("close", || RecordBatchWriter::close(w));
+                }
+            }
             _ => {
                 a.call("finish", || w.finish());
                 if !a.panicked() {
-                    if let Some(inner) = a.call("into_inner", || fine(w.into_inner())) {
+                    if let Some(inner) = a.take("into_inner", || w.into_inner()) {
                         $after(a, inner);
                     }
                 }
@@ -398,6 +457,16 @@ fn json_cases(d: &Data, out: &mut Vec<WCase>) {
         let dd = d.clone();
         out.push(case("json_array", variant, Box::new(move |s, a| json_script!(ArrayWriter, s.clone(), &dd, a, fin, no_after))));
     }
+    for (variant, fin) in [("direct/finish-retry", Fin::FinishRetry), ("direct/finish-retry-close", Fin::FinishThenClose)] {
+        let dd = d.clone();
+        out.push(case("json_lines", variant, Box::new(move |s, a| json_script!(LineDelimitedWriter, s.clone(), &dd, a, fin, no_after))));
+        let dd = d.clone();
+        out.push(case("json_array", variant, Box::new(move |s, a| json_script!(ArrayWriter, s.clone(), &dd, a, fin, no_after))));
+    }
+    let dd = d.clone();
+    out.push(case("json_lines", "buf64/finish-retry+flush-retry", Box::new(move |s, a| json_script!(LineDelimitedWriter, BufWriter::with_capacity(64, s.clone()), &dd, a, Fin::FinishRetry, flush_retry_buf))));
+    let dd = d.clone();
+    out.push(case("json_array", "buf64/finish-retry+flush-retry", Box::new(move |s, a| json_script!(ArrayWriter, BufWriter::with_capacity(64, s.clone()), &dd, a, Fin::FinishRetry, flush_retry_buf))));
     let dd = d.clone();
     out.push(case("json_lines", "buf64/finish+into_inner+flush", Box::new(move |s, a| json_script!(LineDelimitedWriter, BufWriter::with_capacity(64, s.clone()), &dd, a, Fin::FinishIntoInner, flush_buf))));
     let dd = d.clone();
@@ -407,7 +476,10 @@ fn json_cases(d: &Data, out: &mut Vec<WCase>) {
 // ------------------------------------------------------------------ Avro
 
 macro_rules! avro_script {
-    ($W:ident, $sink:expr, $d:expr, $a:expr, $marker:expr) => {{
+    ($W:ident, $sink:expr, $d:expr, $a:expr, $marker:expr) => {
+        avro_script!($W, $sink, $d, $a, $marker, 1)
+    };
+    ($W:ident, $sink:expr, $d:expr, $a:expr, $marker:expr, $tries:expr) => {{
         let d: &Data = $d;
         let a: &Api = $a;
         let Some(mut w) = a.call("new", || arrow_avro::writer::$W::new($sink, d.schema.as_ref().clone())) else { return };
@@ -420,9 +492,11 @@ macro_rules! avro_script {
         if a.panicked() {
             return;
         }
-        a.call("finish", || w.finish());
+        a.retry("finish", $tries, || w.finish().map_err(|e| e.to_string()));
         if !a.panicked() {
-            a.call("into_inner", || fine(w.into_inner()).map(|_| ()));
+            a.take("into_inner", || {
+                w.into_inner();
+            });
         }
     }};
 }
@@ -437,6 +511,12 @@ fn avro_cases(d: &Data, out: &mut Vec<WCase>) {
     out.push(WCase { random_sync: true, ..case("avro_ocf", "direct/finish+into_inner", Box::new(move |s, a| avro_script!(AvroWriter, s.clone(), &dd, a, ocf_marker))) });
     let dd = d.clone();
     out.push(WCase { random_sync: true, ..case("avro_ocf", "buf64/finish+into_inner", Box::new(move |s, a| avro_script!(AvroWriter, BufWriter::with_capacity(64, s.clone()), &dd, a, ocf_marker))) });
+    let dd = d.clone();
+    out.push(WCase { random_sync: true, ..case("avro_ocf", "buf64/finish-retry", Box::new(move |s, a| avro_script!(AvroWriter, BufWriter::with_capacity(64, s.clone()), &dd, a, ocf_marker, 3))) });
+    let dd = d.clone();
+    out.push(WCase { random_sync: true, ..case("avro_ocf", "direct/finish-retry", Box::new(move |s, a| avro_script!(AvroWriter, s.clone(), &dd, a, ocf_marker, 3))) });
+    let dd = d.clone();
+    out.push(case("avro_soe", "buf64/finish-retry", Box::new(move |s, a| avro_script!(AvroStreamWriter, BufWriter::with_capacity(64, s.clone()), &dd, a, no_marker, 3))));
     let dd = d.clone();
     out.push(case("avro_soe", "direct/finish+into_inner", Box::new(move |s, a| avro_script!(AvroStreamWriter, s.clone(), &dd, a, no_marker))));
     let dd = d.clone();
